@@ -175,6 +175,7 @@ class Exec(object):
         if name in p.alias:
             base, fld = p.alias[name]
             return rec_get(self.lookup(p, base), fld)
+        if name == 'retval' and self.result is not None: return self.result      # the returned value, for functions that have a local variable called `result`
         if name in p.env: return p.env[name]
         if name in p.ghost: return p.ghost[name]
         if name == 'result' and self.result is not None: return self.result
@@ -435,7 +436,21 @@ class Exec(object):
             i = self.ev(p, sl)
             self.oblig(p, 'index:%d' % e.lineno, 'safety', And(0 <= i.z, i.z < T.wlen(o.z)), e.lineno)
             return SV(ATOM, T.at(o.z, i.z))
+        if o.t == ATOM and isinstance(sl, ast.Constant) and isinstance(sl.value, int) and sl.value >= 0:
+            # a character of an opaque string (a PDA / TM label): char_at(label, i); IndexError unless i < strlen(label)
+            self.partial_op(p, 'index', IntVal(sl.value) < T.strlen(o.z), e.lineno)
+            return SV(ATOM, T.char_at(o.z, IntVal(sl.value)))
         raise Unsupported('subscript on %s' % o.t)
+
+    def partial_op(self, p, what, ok, line):
+        """an operation that raises unless `ok`: a safety obligation, or - in a function with a `raises` clause - an exceptional exit that
+        the clause must justify; the path continues with `ok` (under comprehension binders: for every element)"""
+        if self.spec_mode: return
+        if self.c.raises is not None:
+            self.oblig(p, '%s-or-raise-justified:%d' % (what, line), 'post', Or(ok, self.raises_cond(p, what)), line)
+        else:
+            self.oblig(p, '%s:%d' % (what, line), 'safety', ok, line)
+        self.assume(p, ok)
 
     def map_lookup(self, p, m, k, e):
         dflt = m.t.args[2]
@@ -1387,6 +1402,11 @@ class Exec(object):
             else:
                 p.fa.pop(tg.id, None)
             p.env[tg.id] = v; return
+        if isinstance(tg, (ast.Tuple, ast.List)) and v.t == ATOM:
+            # a, b, c, d = label: the characters of an opaque string; ValueError unless it has exactly that many
+            self.partial_op(p, 'unpack', T.strlen(v.z) == len(tg.elts), tg.lineno)
+            for i, t in enumerate(tg.elts): self.assign(p, t, SV(ATOM, T.char_at(v.z, IntVal(i))))
+            return
         if isinstance(tg, (ast.Tuple, ast.List)):
             if v.t.kind != 'tup' or len(v.t.args) != len(tg.elts): raise Unsupported('unpacking %s' % v.t)
             for i, t in enumerate(tg.elts): self.assign(p, t, tup_get(v, i))
